@@ -101,10 +101,10 @@ ADDENDA7 = {
  "C03": " Round 7: every triple of sibling fields of one Go type whose schemas differ below the outermost type name; records of zero encoded width (up to 70 000 per block).",
  "C04": " Round 7: consumption of Read / skip path / Skip at every length 0..1100 and 2^k±1 up to 2^21 for length-prefixed things; projection into banks recycled from a file that had the columns.",
  "C05": " Round 7: 30 nodes — maps and arrays of 128- and 136-byte elements, nine-entry maps.",
- "C06": " Round 7: allocation as a scaling law (1/4/16 MiB in one block or metadata value: at most 8x per 4x); valid files with 1–5000 items per record and banks handed back at once; zero-size floods recognised anywhere in a schema.",
+ "C06": " Round 7: allocation as a scaling law (1/4/16 MiB in one block or metadata value: at most 8x per 4x); valid files with 1–5000 items per record and banks handed back at once; zero-size floods recognised anywhere in a schema; an allocation excess is believed only when the same call exceeds the bound three times in a row.",
  "C07": " Round 7: bytes taken from the reader after a failing callback (none); the failing record last in a block whose marker is damaged, missing or cut; every ordered triple of six files sharing a record name and a Go type.",
  "C09": " Round 7: refusal of the 2nd..6th write of a flush's block (success reported => output is the model's); single blocks of 2^14-1 to 2^17+3 records.",
- "C10": " Round 7: file collections also in size-prefixed blocks / one block per item.",
+ "C10": " Round 7: file collections also in size-prefixed blocks / one block per item; pool answers explored from a cold-pool default (fresh bank) and from a warm-pool default (most recently pooled bank); the read also after an earlier read that its callback gave up.",
  "C11": " Round 7: a read stopped by the callback's error with the record kept; 1–40 elements of 4160 bytes per record.",
  "C12": " Round 7: method calls on package variables built by a foreign constructor (rand.New, bytes.NewBuffer...) are write accesses for the happens-before check.",
  "C13": " Round 7: time.Time under plain, object-form and unknown-annotation longs; collections of 4095 to 70 000 items.",
